@@ -124,6 +124,8 @@ extern void (*vh_on_write_cb)(scpi_t * context, const char * data, size_t len);
 extern void (*vh_on_error_cb)(scpi_t * context, int err); /* generic instrumented handler */
 /* second, unrelated context run on every n-th input call / handler entry (0 = off); see vh_scpi.c */
 void vh_decoy_enable(unsigned every);
+/* the first callback inside an input call overwrites the chunk that call was given (an application with one line buffer) */
+void vh_scribble_chunk_in_callbacks(int on);
 uint64_t vh_decoy_runs(void);
 extern const scpi_choice_def_t vh_choices[];
 
